@@ -19,6 +19,7 @@ import (
 //   id 0: STOP   id 1: call third, STOP   id 2: call third, REVERT   id 4: call third, INVALID
 //   id 5: call third with value 0, call third with value 1, STOP
 //   id 6: REVERT when called without value, STOP otherwise
+//   id 7: storage cell - without call data RETURN slot 0, otherwise slot 0 := calldata[0:32]
 func zzRuntime(id int, third []byte) []byte {
 	rt := []byte{0x60, byte(id), 0x50}
 	if id == 0 {
@@ -27,6 +28,12 @@ func zzRuntime(id int, third []byte) []byte {
 	if id == 6 {
 		// CALLVALUE, PUSH1 0x0C, JUMPI, PUSH1 0, PUSH1 0, REVERT, JUMPDEST, STOP
 		return append(rt, 0x34, 0x60, 0x0C, 0x57, 0x60, 0x00, 0x60, 0x00, 0xFD, 0x5B, 0x00)
+	}
+	if id == 7 {
+		// storage cell: PUSH1 7 POP | CALLDATASIZE PUSH1 0x12 JUMPI | PUSH1 0 SLOAD PUSH1 0 MSTORE PUSH1 32 PUSH1 0 RETURN
+		//               | JUMPDEST PUSH1 0 CALLDATALOAD PUSH1 0 SSTORE STOP
+		return append(rt, 0x36, 0x60, 0x12, 0x57, 0x60, 0x00, 0x54, 0x60, 0x00, 0x52, 0x60, 0x20, 0x60, 0x00, 0xF3,
+			0x5B, 0x60, 0x00, 0x35, 0x60, 0x00, 0x55, 0x00)
 	}
 	firstValue := byte(0x01)
 	if id == 5 {
@@ -208,4 +215,131 @@ func ZZ_C17_E12() {
 	zzNoPanic("block after the read-only call", func() { n.emptyBlock(0) })
 	zzverif.Event("E12", pid, thirdIsR, kind, r.Code == 0)
 	zzverif.Reach("E12 end")
+}
+
+// ---- E5: storage, return data and exact gas of a metered program ----------------
+
+func zzCellWord(v uint64) []byte {
+	w := make([]byte, 32)
+	w[31] = byte(v)
+	return w
+}
+
+// zzCellSetGas is the reference gas of `slot0 := nv` executed as a transaction of
+// its own (the slot is cold and its original value is its current value):
+// intrinsic gas + 30 for the straight-line code + SSTORE per EIP-2929/2200/3529.
+func zzCellSetGas(cur, nv uint64) (exec, refund uint64) {
+	switch {
+	case cur == nv:
+		return 30 + 2100 + 100, 0
+	case cur == 0:
+		return 30 + 2100 + 20000, 0
+	case nv == 0:
+		return 30 + 2100 + 2900, 4800
+	}
+	return 30 + 2100 + 2900, 0
+}
+
+func zzIntrinsic(data []byte) uint64 {
+	g := uint64(21000)
+	for _, b := range data {
+		if b == 0 {
+			g += 4
+		} else {
+			g += 16
+		}
+	}
+	return g
+}
+
+// ZZ_C17_E5: three transactions on a storage-cell contract, spread over two
+// blocks in every way; each is a setter with a value out of {0,1,2} and a
+// symbolic gas limit.  Reference semantics: outcome, gas used (exactly), fee,
+// storage (read back through read-only calls at every committed height).
+func ZZ_C17_E5() {
+	govp := ctrlertypes.Test1GovParams()
+	n := zzNewGenesisBanded(3, 1, govp).start()
+	n.emptyBlock(0)
+	n.emptyBlock(0)
+	n.begin(0, nil, nil)
+	s := n.deploy(1, zzInitCode(7, nil))
+	n.end()
+	firstBlock := 1 + zzverif.Choose("txs.in.block4", 3) // 1..3 of the three transactions are in block 4
+	tight := zzverif.Choose("tx.with.symbolic.gas", 3)
+	cell := uint64(0)
+	cellAt := map[int64]uint64{n.height: 0}
+	n.begin(0, nil, nil)
+	for k := 0; k < 3; k++ {
+		if k == firstBlock {
+			n.end()
+			cellAt[n.height] = cell
+			n.begin(0, nil, nil)
+		}
+		sender := 1 + k%2
+		nv := uint64(zzverif.Choose("tx.newvalue", 3))
+		data := zzCellWord(nv)
+		ig := zzIntrinsic(data)
+		gas := uint64(200000)
+		if k == tight {
+			gas = zzverif.NondetU64In("tx.gas", 21000, 1<<24)
+		}
+		pre := n.balanceOf(zzAddr(sender))
+		preNonce := n.nonceOf(zzAddr(sender))
+		preFee := n.app.nextBlockCtx.SumFee()
+		t := &zzTx{from: sender, amount: uint256.NewInt(0), gas: gas, gasPrice: govp.GasPrice(), nonce: preNonce, signer: sender,
+			typ: ctrlertypes.TRX_CONTRACT, payload: &ctrlertypes.TrxPayloadContract{Data: data}}
+		r := n.app.DeliverTx(abcitypes.RequestDeliverTx{Tx: n.encodeTo(t, s)})
+		post := n.balanceOf(zzAddr(sender))
+		fee := new(uint256.Int).Sub(n.app.nextBlockCtx.SumFee(), preFee)
+		exec, refund := zzCellSetGas(cell, nv)
+		// the reference EVM: enough gas for the intrinsic part, the code up to SSTORE,
+		// the 2300 sentry and the SSTORE itself
+		enough := gas >= ig+30
+		if enough {
+			enough = gas-ig-30 > 2300
+		}
+		if enough {
+			enough = gas-ig >= exec
+		}
+		if enough {
+			zzverif.Assert(r.Code == 0, "E5 a setter with enough gas succeeds")
+		} else {
+			zzverif.Assert(r.Code != 0, "E5 a setter without enough gas fails")
+		}
+		if r.Code == 0 {
+			used := ig + exec
+			if refund > used/5 {
+				refund = used / 5
+			}
+			used -= refund
+			zzverif.Assert(uint64(r.GasUsed) == used, "E5 gas used = reference EVM (intrinsic + code + SSTORE - refund)")
+			zzverif.Assert(fee.Eq(new(uint256.Int).Mul(uint256.NewInt(uint64(r.GasUsed)), govp.GasPrice())), "E5 the fee is exactly gas used x price")
+			zzverif.Assert(new(uint256.Int).Sub(pre, post).Eq(fee), "E5 the sender pays exactly the fee")
+			zzverif.Assert(n.nonceOf(zzAddr(sender)) == preNonce+1, "E5 successful tx raises the nonce by one")
+			cell = nv
+			zzverif.Reach("E5 setter succeeded")
+		} else {
+			zzverif.Assert(post.Eq(pre), "E5 failed tx: balance unchanged")
+			zzverif.Assert(fee.IsZero(), "E5 failed tx: no fee")
+			zzverif.Assert(n.nonceOf(zzAddr(sender)) == preNonce, "E5 failed tx: nonce unchanged")
+			zzverif.Reach("E5 setter failed")
+		}
+	}
+	n.end()
+	cellAt[n.height] = cell
+	// storage at every committed height, through read-only calls (which change nothing)
+	for h := n.height - 2; h <= n.height; h++ {
+		want, ok := cellAt[h]
+		if !ok {
+			continue
+		}
+		ret, failed, err := evm.ZZCallVMData(n.app.vmCtrler, zzAddr(1), s, nil, h, 0)
+		zzverif.Assert(err == nil && !failed, "E5 read-only getter call succeeds")
+		if err == nil && !failed {
+			zzverif.Assert(len(ret) == 32 && zzverif.SameBytes(ret, zzCellWord(want)), "E5 storage at a committed height = reference EVM result")
+		}
+	}
+	zzNoPanic("block after the read-only calls", func() { n.emptyBlock(0) })
+	zzverif.Event("E5", firstBlock, cell)
+	zzverif.Reach("E5 end")
 }
